@@ -209,3 +209,39 @@ fn x_st_cancel_others() {
     assert!(!z.runtime().load_cancellation_flag());
     std::mem::forget(st);
 }
+
+// @verif prop=C21 obl=O4 tier=quick bounds="single handle; cancel() issued before the outermost scope, inside it, or inside a nested scope (3 cases, symbolic); two nested attach scopes"
+// @+ encodes="attach::attach (public), Attached::attach, DbGuard::new/drop, Database::cancellation_token, ZalsaLocal::uncancel, CancellationToken::reset, CancellationToken::cancel/is_cancelled"
+/// C21-O4 (public API): the handle's cancellation token is reset when the *outermost* attached scope (the outermost
+/// tracked-function call) returns, and not before: leaving a nested scope keeps a pending cancellation request.
+#[kani::proof]
+#[kani::unwind(5)]
+#[kani::stub(real_catch_unwind, stub_catch_unwind)]
+fn c21_o4_token_reset_after_outermost_scope() {
+    let (zalsa, _) = any_zalsa();
+    let db = VDb::verif_new(storage_around_raw(zalsa));
+    let token = db.cancellation_token();
+    let when: u8 = kani::any();
+    kani::assume(when < 3);
+    if when == 0 {
+        token.cancel();
+    }
+    let t1 = token.clone();
+    let still_cancelled_after_inner = crate::attach::attach(&db, || {
+        if when == 1 {
+            t1.cancel();
+        }
+        crate::attach::attach(&db, || {
+            if when == 2 {
+                t1.cancel();
+            }
+        });
+        t1.is_cancelled()
+    });
+    assert!(still_cancelled_after_inner, "C21: leaving a nested scope dropped a pending cancellation request");
+    assert!(!token.is_cancelled(), "C21: the token was not reset when the outermost call returned");
+    assert!(!db.zalsa_local().should_trigger_local_cancellation(), "C21: a later request on the handle would still be cancelled");
+    kani::cover!(when == 2);
+    kani::cover!(when == 0);
+    std::mem::forget(db);
+}
